@@ -4,8 +4,8 @@ from props import tokcommon as tc
 PROP = "C04"
 ENGINE = "tok+xmltok+total"
 USES_TRANSLATOR = True
-LEAN_TARGETS = ["H5V.Props.C04", "H5V.Props.C04Term", "H5V.Props.C04Xml", "H5V.Props.C04XmlTerm", "H5V.Props.C16", "H5V.Props.C04TB"]
-AUDIT_IMPORTS = ["H5V.Props.C04", "H5V.Props.C04Term", "H5V.Props.C04Xml", "H5V.Props.C04XmlTerm", "H5V.Props.C16", "H5V.Props.C04TB"]
+LEAN_TARGETS = ["H5V.Props.C04", "H5V.Props.C04Term", "H5V.Props.C04Xml", "H5V.Props.C04XmlTerm", "H5V.Props.C16", "H5V.Props.C04TB", "H5V.Props.C04TB2"]
+AUDIT_IMPORTS = ["H5V.Props.C04", "H5V.Props.C04Term", "H5V.Props.C04Xml", "H5V.Props.C04XmlTerm", "H5V.Props.C16", "H5V.Props.C04TB2"]
 THEOREMS = ["H5V.Props.C04." + t for t in [
     "C04_tok_initial_safe", "C04_tok_no_panic", "C04_tok_run_no_panic", "C04_tok_feed_drains", "C04_tok_eof_is_last",
     # termination (Props/C04Term.lean)
@@ -38,7 +38,13 @@ THEOREMS = ["H5V.Props.C04." + t for t in [
     "C04_tb_inv_new", "C04_tb_no_panic_step", "C04_tb_no_panic_token", "C04_tb_no_panic_tokens", "C04_tb_no_panic",
     "C04_tb_no_panic_protocol", "C04_tb_no_panic_fragment", "C04_tb_no_panic_protocol_fragment", "C04_tb_total",
     "C04_tb_total_protocol", "C04_tb_end_total", "C04_tb_benign_not_panic", "C04_tb_benign_cases",
-    "C04_tb_protocol_not_text", "respects_of_respectsB"]]
+    "C04_tb_protocol_not_text", "respects_of_respectsB"]] + [
+    # the fuel of the model's reprocess loop suffices; combined with C05TB: under the tokenizer protocol and TagsOk the only
+    # failures left are the mirror op's own and the two encoding.rs messages (Props/C04TB2.lean)
+    "H5V.Props.C04TB2." + t for t in [
+    "C04_tb_ptc_fuel", "C04_tb_no_panic'", "C04_tb_no_panic_protocol'", "C04_tb_no_panic_fragment'",
+    "C04_tb_no_panic_protocol_fragment'", "C04_tb_total_protocol'", "C04_tb_total'", "C04_tb_total_full'"]] + [
+    "H5V.Props.C05TB.C05_tb_contract", "H5V.Props.C05TB.C05_tb_contract_fragment"]
 TRUSTED = [
     "Lean 4 kernel; axioms ⊆ {propext, Classical.choice, Quot.sound} (audited per run)",
     "tokenizer model lean/H5V/Model/HtmlTok.lean: every assert!/unwrap/expect/panic!/index/from_u32 of tokenizer/mod.rs and "
@@ -51,9 +57,10 @@ TRUSTED = [
     "bisected to the single case by tools/vlib.py (ABORT/timeout); 10^5-deep nesting and 10^5..10^6-character inputs",
 ]
 ASSUMPTIONS = [
-    "C04_partial: for the HTML tree builder model two things remain unproved - that its tree-MOVING sink calls (adoption "
-    "agency, foster parenting, frameset-replaces-body) stay inside the TreeSink contract (so RcDom's own asserts), and the "
-    "fuel of the model's reprocess loop; "
+    "C04_partial: for the HTML tree builder model what remains open is the success of rcdom's option->selectedcontent mirror "
+    "call (it is CALLED within its contract, but the contract alone does not exclude a template nested in its own contents: "
+    "C05_mirror_needs_more_than_contract) and the UTF-8 validity of the slice encoding.rs cuts; composition of the token-level "
+    "theorems with the tokenizer through the joint driver is by C03Joint's replay theorem, not restated here; "
     "they are exercised: no PANIC/ABORT/HANG on any case of any engine in this run, queue drained after every feed, "
     "exactly one EOF delivered last",
     "the sink is contract-abiding (RcDom / the recording sink of the harness)",
